@@ -77,9 +77,13 @@ def replay_literal(obligation: str = "", model: Optional[Dict[str, str]] = None,
     cands = []
     if "s0" in model:
         cands += [f"^{_esc(int(model['s0']))}$", f"^{_esc(int(model['s0']))}+$", f"^a{_esc(int(model['s0']))}?b$"]
-    cands += ["^\\U0001F600$", "^\\U0001F600{2,3}$", "^x\\U00010000*$"]
-    samples = ["", "a", "ab", "\U0001F600", "\U0001F600\U0001F600", "\U0001F600\U0001F600\U0001F600", "x",
-               "x\U00010000\U00010000", "\U00010000"]
+    # every form of quantifier on an astral literal: the rewriting has to keep minimum, maximum and greediness
+    cands += ["^\\U0001F600$", "^\\U0001F600{2,3}$", "^x\\U00010000*$", "^\\U0001F600?$", "^\\U0001F600{2}$",
+              "^\\U0001F600{1,2}$", "^\\U0001F600{0,3}$", "^\\U0001F600{,2}$", "^\\U0001F600+$", "^\\U0001F600{2,}$",
+              "^a\\U0001F600??b$"]
+    samples = ["", "a", "ab", "\U0001F600", "\U0001F600\U0001F600", "\U0001F600\U0001F600\U0001F600",
+               "\U0001F600\U0001F600\U0001F600\U0001F600", "x", "x\U00010000\U00010000", "\U00010000",
+               "a\U0001F600b", "a\U0001F600\U0001F600b"]
     if "s0" in model and not (0xD800 <= int(model["s0"]) <= 0xDFFF):
         ch = chr(int(model["s0"]))
         samples += [ch, ch + ch, "a" + ch + "b"]
